@@ -14,7 +14,8 @@
 From Coq Require Import String List Bool Arith.
 Import ListNotations.
 From ACH Require Import PartialTable PartialAccounted OpSiteTable OpSites TotalOps TotalOpsFacts TotalJson TotalJsonFacts
-  ReaderShape ReaderShapeFacts ReaderSiteTable ReaderEffectsTable ReaderEffects C06ReaderObl.
+  ReaderShape ReaderShapeFacts ReaderSiteTable ReaderEffectsTable ReaderEffects ReaderText ReaderTextFacts C06ReaderObl.
+From ACH Require Totality.
 
 (* ---- the invariant *)
 
@@ -88,6 +89,24 @@ Theorem C06_text_then_ops_total : forall (skip : bool) (ls : list rline) (fin : 
   panics (read_then_ops ls fin xs (init skip) o) = false.
 Proof. exact text_then_ops_total. Qed.
 Print Assumptions C06_text_then_ops_total.
+
+(* ---- bytes to shapes *)
+
+(* phase 1 and phase 5 composed.  Any list of physical lines (byte strings; the first one of at most 94
+   runes — the loop of Read cuts lines at 94 runes, which is a hypothesis here as in C06_read_total_partial,
+   hence _partial): the byte level (readLine, parseLine, parseBH, the addenda code slices) does not panic and
+   yields the dispatched records; whatever data these records carry — every shape-level line sequence of
+   the same record types, every answer, every oracle — the state machine does not panic and returns a
+   well-formed file *)
+Theorem C06_read_text_total_partial : forall bs : list Bytes.bytes,
+  match bs with l :: _ => Utf8.rune_count l <= Totality.record_length | [] => True end ->
+  exists recs, Totality.read_lines true bs = Totality.Ok recs /\
+    forall (skip : bool) (ls : list rline) (fin : ans) (o : list bool),
+      refines_all (dispatched recs) ls = true ->
+      panics (reader_read ls fin (init skip) o) = false /\
+      forall v s o', reader_read ls fin (init skip) o = OK v s o' -> wf_file_strict (r_file s) = true.
+Proof. exact read_text_total. Qed.
+Print Assumptions C06_read_text_total_partial.
 
 (* ---- server *)
 
